@@ -122,13 +122,50 @@ def connected_nodes(spec, closed):
     return seen
 
 
-def run_sim_capture(wntr, spec):
+def run_all(wntr, spec):
+    """generator of (spec as the network is THEN, capture): the run of `spec`, and -- when the spec carries a `second` plan -- the run of the
+    SAME WaterNetworkModel after its definition was edited through public setters (with / without reset_initial_values, same / new simulator)"""
+    if "second" not in spec:
+        yield spec, run_sim_capture(wntr, spec)
+        return
+    first = {k: v for k, v in spec.items() if k != "second"}
+    cap = run_sim_capture(wntr, first)
+    yield first, cap
+    if cap["error"] is not None or cap["res"] is None or cap["res"].error_code is not None:
+        return
+    try:
+        sp2, sec = G.apply_second_edits(wntr, cap["wn"], spec)
+    except Exception as e:
+        yield first, {"wn": cap["wn"], "frames": [], "norms": [], "error": "edit: %s: %s" % (type(e).__name__, str(e)[:150]), "res": None}
+        return
+    sp2.setdefault("features", {})["second_run"] = True
+    sp2["_origin"] = spec   # the replayable input is the whole plan: run, edit, run
+    yield sp2, run_sim_capture(wntr, sp2, wn=cap["wn"], sim=(None if sec.get("new_sim") else cap.get("sim")))
+
+
+def edit_between_runs_specs(ctx, n):
+    """run -> edit the definition -> run again: scenarios with pumps / valves / patterns and small random networks"""
+    rng = ctx.rng
+    out = []
+    names = ["pump_points", "pump_curves", "tcv", "prv", "power_pump", "pump_points", "fcv", "pump_shutoff"]
+    for i in range(n):
+        if i % 3 == 2:
+            spec = G.random_network(rng, quick=True, force={"n_nodes": rng.choice([4, 5, 6, 8])})
+        else:
+            spec = G.scenario_network(rng, names[i % len(names)], variant=0)
+        spec.pop("controls", None)
+        out.append(G.add_second_run(rng, spec))
+    return out
+
+
+def run_sim_capture(wntr, spec, wn=None, sim=None):
     """run the REAL simulator; returns dict(wn, res, frames, norms, error) -- frames[k] describes the k-th saved step"""
     import numpy as np
     import wntr.sim.hydraulics as H
     from wntr.sim.solvers import NewtonSolver, SolverStatus
 
-    wn = G.build_wn(wntr, spec)
+    if wn is None:
+        wn = G.build_wn(wntr, spec)
     frames, norms = [], []
     orig_save = H.save_results
     orig_solve = NewtonSolver.solve
@@ -152,7 +189,9 @@ def run_sim_capture(wntr, spec):
     NewtonSolver.solve = solve
     out = {"wn": wn, "frames": frames, "norms": norms, "error": None, "res": None}
     try:
-        sim = wntr.sim.WNTRSimulator(wn)
+        if sim is None:
+            sim = wntr.sim.WNTRSimulator(wn)
+        out["sim"] = sim
         out["res"] = sim.run_sim(HW_approx=spec.get("hw_approx", "default"))
     except Exception as e:  # singular start, refused configuration ...: nothing is reported, nothing to judge
         out["error"] = "%s: %s" % (type(e).__name__, str(e)[:200])
@@ -190,6 +229,7 @@ def features(spec):
         "link_tank_to_tank": any(l["start"] in tanks and l["end"] in tanks for l in elinks),
         "link_reservoir_to_reservoir": any(l["start"] not in tanks and l["end"] not in tanks and
                                            {l["start"], l["end"]} <= set(n["name"] for n in srcs) for l in elinks),
+        "second_run_after_edit": bool(spec.get("features", {}).get("second_run")),
         "valve_setting_changed_by_control": any(c.get("attr", "setting") == "setting" for c in spec.get("controls", [])),
         "valve_setting_changed_by_postsolve_condition": any(c.get("cond") for c in spec.get("controls", [])),
         "tank_volume_curve": any(n.get("vol_curve") for n in spec["nodes"]),
